@@ -3,9 +3,10 @@
 M    TLC (MC_Arith over BigNum limb integers): the specification's own arithmetic satisfies the division law
      (q*b + r = a, 0 <= r < |b|), commutativity, antisymmetry of CmpNum and agreement of CmpNum with Cmp.
 S→I  TLC enumerates MATHEMATICAL values (small integers, 2^k+d around every width boundary, exact dyadic
-     floats, NaN, +-inf, -0) and emits, for all ordered pairs, the exact result of + - * // % ** / negation
+     floats incl. tiny ones far below the machine epsilon, NaN, +-inf, -0) and emits, for all ordered pairs, the exact result of + - * // % ** / negation
      and of the six comparisons; the harness replays each with the operands in EVERY encoding that can hold
-     them (i64/u64/i128/u128/literal/f64) — results must never depend on the representation."""
+     them (i64/u64/i128/u128/literal/f64) — results must never depend on the representation.  With a float
+     operand, / // % fail exactly when the divisor is zero (IsZeroNum) and give a float otherwise."""
 import json
 import vp
 
@@ -147,6 +148,11 @@ def run(tier):
                         if fit:
                             add("{{ (%s + %s) is float }}{{ (%s - %s) is float }}{{ (%s * %s) is float }}" % (A, Bn, A, Bn, A, Bn), dict(ctx),
                                 "truetruetrue", {"op": "float-op", "a": str(pa), "b": str(pb), "ea": x[0], "eb": y[0]})
+                            # division with a float operand: an error exactly when the divisor is zero (+0.0, -0.0 or the
+                            # integer 0) -- a tiny divisor, NaN or an infinity is not zero -- and a float otherwise
+                            for op in ("/", "//", "%"):
+                                add("{{ (%s %s %s) is float }}" % (A, op, Bn), dict(ctx), None if v["bzero"] else "true",
+                                    {"op": "float" + op, "a": str(pa), "b": str(pb), "ea": x[0], "eb": y[0]})
     res = vp.run_jobs(jobs, tag="c13", timeout=3000)
     for (src, exp, key), rr, job in zip(meta, res, jobs):
         C.count()
